@@ -34,10 +34,14 @@ VOCAB = [
     "[.=true]", "[.=1.5]", "[!.=a]", "[.=None]", "[b.a!=1]",
     "a*", "*b", "a*b",
     "*", "**",
+] + [
+    # keyword searches (evaluated by the model since the evaluator integration)
+    "[has_child(a)]", "[!has_child(a)]", "[name()]", "[parent()]", "[parent(0)]", "[parent(2)]", "[max()]", "[min()]",
+    "[max(a)]", "[!max(a)]", "[min(a)]", "[unique()]", "[!unique()]", "[distinct()]", "[unique(a)]", "[distinct(a)]",
 ]
 CORE = ["a", "b", "1", "-1", "[0]", "[-1]", "[-2]", "[0:2]", "[1:1]", "[a:b]", "[&x]",
         "[.=a]", "[.=1]", "[.!=1]", "[.^a]", "[.>0]", "[a=1]", "[a!=1]", "[a.b=1]", "[.=~/^a/]",
-        "a*", "*", "**"]
+        "a*", "*", "**", "[has_child(a)]", "[parent()]", "[max(a)]", "[name()]"]
 
 
 def path_text(items, slash=False):
@@ -195,6 +199,13 @@ def random_doc(rng, budget=25, depth=0, anchors=None, keys=None):
     return out
 
 
+KEYWORD_ITEMS = ["[unique()]", "[distinct()]", "[unique(a)]", "[distinct(a)]", "[max(a)]", "[min(a)]", "[max()]", "[min()]",
+                 "[has_child(a)]", "[!has_child(a)]", "[name()]", "[parent()]", "[parent(2)]", "[max(b)]", "[unique(b)]",
+                 "[!max(a)]", "[!unique()]", "[!distinct()]"] + [
+    "[parent(0)]", "[parent(3)]", "[parent(x)]", "[min(b)]", "[!min(a)]", "[has_child(b)]", "[has_child(1)]", "[!unique(a)]",
+    "[max(a,b)]", "[name(a)]", "[!name()]", "[!parent()]", "[has_child()]", "[unique(c)]", "[distinct(b)]", "[max(c)]"]
+
+
 def random_seg(rng):
     r = rng.random()
     if r < 0.3:
@@ -217,8 +228,10 @@ def random_seg(rng):
         return "[%s%s%s%s]" % (inv, attr, op, term)
     if r < 0.86:
         return rng.choice(["a*", "*b", "a*b", "*a*"])
-    if r < 0.94:
+    if r < 0.92:
         return "*"
+    if r < 0.96:
+        return rng.choice(KEYWORD_ITEMS)
     return "**"
 
 
@@ -333,6 +346,8 @@ def guided_path(rng, doc, maxlen=5):
             cur = cur if r < 0.6 else None
         else:
             out.append(random_seg(rng)); cur = None
+    if rng.random() < 0.12:
+        out.insert(rng.randint(0, len(out)), rng.choice(KEYWORD_ITEMS))
     return out
 
 
@@ -401,19 +416,65 @@ def search_terms(segs, acc, attrs):
                     search_terms(sub, acc, attrs)
 
 
+import re as _re
+
+SAFE_TEXT = _re.compile(r"^[A-Za-z0-9 ._+\-]*$")
+
+
+def is_container(hj):
+    return hj["k"] in ("map", "seq", "set")
+
+
+def simple_pair(hj, term):
+    """Pairs the comparison model (Model/Compare.lean) is expected to decide by itself: a scalar haystack and a term
+    without the characters of the fenced literal classes.  Everything else gets an oracle row."""
+    if is_container(hj):
+        return False
+    if hj["k"] == "str" and not SAFE_TEXT.match(hj["v"]):
+        return False
+    return bool(SAFE_TEXT.match(term))
+
+
+def haystack_text(hj, ho):
+    """str(haystack) as Searches.search_matches computes it (a Boolean is compared as bool)."""
+    if hj["k"] == "bool":
+        return "True" if hj["v"] else "False"
+    return str(ho)
+
+
 def oracle_tables(doc_json, doc_obj, segs):
+    """(rx, mt, attrs): the regex oracle rows [pattern, text, found|None] for every REGEX term x scalar haystack,
+    the real Searches.search_matches answers for the (haystack, term) pairs outside the comparison model
+    (container haystacks, fenced literal classes), and the real parse of every search attribute."""
+    import re
     from yamlpath.common import Searches
     from yamlpath.enums import PathSearchMethods
     terms, attrs = set(), {}
     search_terms(segs, terms, attrs)
-    mt = []
+    mt, rx = [], []
     if terms:
         subs = []
         subnodes(doc_json, doc_obj, subs)
+        if any(t == "KEYWORD_SEARCH" for t, _a in segs):
+            # [name()] turns a parentref into a haystack: None at the root, list indexes as they were written
+            subs.append(({"k": "null"}, None))
+            subs += [({"k": "int", "v": str(i)}, i) for i in range(-45, 46)]
         seen = set()
+        rxseen = set()
         for (m, term) in sorted(terms):
             meth = PathSearchMethods[m]
             for hj, ho in subs:
+                if m == "REGEX" and not is_container(hj):
+                    text = haystack_text(hj, ho)
+                    if (term, text) not in rxseen:
+                        rxseen.add((term, text))
+                        try:
+                            found = re.compile(term).search(text) is not None
+                        except re.error:
+                            found = None
+                        rx.append([term, text, found])
+                if simple_pair(hj, term):
+                    continue
                 key = (m, term, json.dumps(hj, sort_keys=True))
                 if key in seen:
                     continue
@@ -425,7 +486,7 @@ def oracle_tables(doc_json, doc_obj, segs):
                 except Exception as e:  # noqa
                     ans = core.exc_class(e)
                 mt.append([m, hj, term, ans])
-    return mt, [[a, v] for a, v in attrs.items()]
+    return rx, mt, [[a, v] for a, v in attrs.items()]
 
 
 def resolve(root, addr):
@@ -615,7 +676,18 @@ def err_class(e):
 
 
 def seg_kinds(segs):
-    return ",".join(t for t, _a in segs)
+    """Segment kinds of a path; a keyword search is named by its keyword (KW:parent, KW:has_child, …)."""
+    out = []
+    for t, a in segs:
+        if t == "KEYWORD_SEARCH" and isinstance(a, dict) and "keyword" in a:
+            out.append("KW:" + a["keyword"]["kw"].lower())
+        else:
+            out.append(t)
+    return ",".join(out)
+
+
+def has_keyword(segs):
+    return any(t == "KEYWORD_SEARCH" for t, _a in segs)
 
 
 # --------------------------------------------------------------------------- one chunk of cases
@@ -650,12 +722,12 @@ def compare_chunk(args):
         req, d, table = run_query(doc, text, "req")
         stats["queries"] += 1
         try:
-            mt, attrs = with_timer(lambda: oracle_tables(doc, d, segs))
+            rx, mt, attrs = with_timer(lambda: oracle_tables(doc, d, segs))
         except codec.OutOfModel:
             stats["oom"] += 1
             continue
         prepared.append((doc, items, text, segs, req, d, table))
-        reqs.append({"op": "C01.eval", "doc": doc, "segs": segs, "mt": mt, "attrs": attrs})
+        reqs.append({"op": "C01.eval", "doc": doc, "segs": segs, "rx": rx, "mt": mt, "attrs": attrs})
     answers = core.Driver().ask(reqs) if reqs else []
     for (doc, items, text, segs, req, d, table), mo in zip(prepared, answers):
         case = {"doc": doc, "path": text, "items": items}
@@ -704,7 +776,9 @@ def compare_chunk(args):
         impl_err = req.get("err")
         if impl_err == "ypath":
             stats["ypath"] += 1
-        probs = req.get("problems") or []
+        # keyword results: [name()] yields a key, not a document node - coordinates of keyword paths are not judged (C02)
+        kw_path = has_keyword(segs)
+        probs = [] if kw_path else (req.get("problems") or [])
         impl_addrs = None if impl_err else [addr_only(r) for r in req["res"]]
         spec_g = dict(m_spec)
         # get_nodes(mustexist=True) raises when nothing matched; a null document yields nothing
@@ -772,7 +846,7 @@ def compare_chunk(args):
             stats["nonempty"] += 1
             nontrivial.add(hash((json.dumps(doc, sort_keys=True), text)))
         # ---- C02: coordinates, ancestry, path text, re-query
-        if opts.get("c02") and impl_err is None and not bad:
+        if opts.get("c02") and impl_err is None and not bad and not kw_path:
             c02_compare(case, kinds, req, m_req, d, table, stats, report, viol)
         if len(samples) < 2 and impl_err is None and impl_addrs and len(segs) > 1:
             samples.append({"doc": doc, "path": text, "impl": impl_addrs, "spec": spec_addrs})
@@ -910,10 +984,6 @@ def collector_chunk(args):
 
 
 # --------------------------------------------------------------------------- keyword segments (C15, direct check only)
-
-KEYWORD_ITEMS = ["[unique()]", "[distinct()]", "[unique(a)]", "[distinct(a)]", "[max(a)]", "[min(a)]", "[max()]", "[min()]",
-                 "[has_child(a)]", "[!has_child(a)]", "[name()]", "[parent()]", "[parent(2)]", "[max(b)]", "[unique(b)]",
-                 "[!max(a)]", "[!unique()]", "[!distinct()]"]
 
 
 def keyword_chunk(args):
